@@ -222,6 +222,12 @@ def annotate_fn(text, ann, clauses, fname):
             raise LostAnchor('%s: return type not found' % fname)
         ins.append((mo.start(1), 0, '(' + ann['ret'] + ': '))
         ins.append((mo.end(1), 0, ')'))
+    if ann.get('fn_attr') is None and ann.get('loops') and not ann.get('isolated_loops'):
+        ann = dict(ann); ann['fn_attr'] = '#[verifier::loop_isolation(false)]'
+    if ann.get('fn_attr'):
+        # verifier attribute on the copied function (e.g. loop_isolation(false): facts established before a loop stay
+        # visible inside it, so hoisting a call out of a loop does not lose the callee's postcondition)
+        ins.append((0, 0, ann['fn_attr'] + '\n'))
     clause = ''
     req = Wlist('requires', ann.get('requires'))
     ens = Wlist('ensures', ann.get('ensures'))
